@@ -250,8 +250,13 @@ def build(case):
                         spec = {'v': tgt['voff'] if a['kind'] == 'views' else off}
                         info['abs_off'] = spec['v']
                     info['target'] = tgt
-                attrs.append([at, form, None])
-                vals.append(spec)
+                if a.get('indirect'):
+                    # the abbreviation declares DW_FORM_indirect, the entry itself names the form (a chain of 1 or 2 indirections)
+                    attrs.append([at, 'DW_FORM_indirect', None])
+                    vals.append({'chain': a['indirect'], 'form': form, 'val': spec})
+                else:
+                    attrs.append([at, form, None])
+                    vals.append(spec)
                 xattrs.append(info)
             tab.append({'code': len(tab) + 1, 'tag': 0x34, 'children': False, 'attrs': attrs})
             kids.append({'ab': len(tab) - 1, 'vals': vals, 'kids': []})
@@ -852,6 +857,10 @@ def build_case(ch, tier):
                 add({'at': 0x03, 'form': 'DW_FORM_string', 'kind': 'decoy', 'spec': {'s': b'x'}})
             # locviews must come with a DW_AT_location list in the same DIE (library asserts it): keep order location, views
             dies.append(attrs)
+        for d_ in dies:
+            for a_ in d_:
+                if ch.bool(0.12):
+                    a_['indirect'] = ch.choice([1, 1, 2])
         cu['dies'] = dies
         if cu['version'] < 5 and ch.bool(0.3):
             cu['gnu_bases'] = [ch.choice([None, 4, 8, 16, 0x20, ch.int(1, 300)]), ch.choice([None, 0, 8, ch.int(1, 64)])]
@@ -893,6 +902,15 @@ def sweep(tier):
                                        {'version': 5, 'fmt': fmt, 'loc_block': 1, 'rng_block': 1, 'addr_table': 0,
                                         'dies': [[{'at': 0x40, 'form': 'DW_FORM_sec_offset', 'kind': 'loclist', 'ref': 0}, {'at': 0x55, 'form': 'DW_FORM_rnglistx', 'kind': 'rnglist', 'ref': 1}]]}]
                         cases.append(case)
+                        # the same file with every list attribute of the first unit behind DW_FORM_indirect (decoys stay direct, so that no
+                        # declared form of the abbreviation is an index form)
+                        import copy
+                        c2 = copy.deepcopy(case)
+                        for d_ in c2['cus'][0]['dies']:
+                            for a_ in d_:
+                                if a_['kind'] != 'decoy':
+                                    a_['indirect'] = 1 + (noff + tail_gap) % 2
+                        cases.append(c2)
             # v4 family with every list-capable form per version
             for ver in (2, 3, 4):
                 for fmt in (32, 64):
